@@ -74,6 +74,14 @@ type (
 	Marsh struct{ V int }
 )
 
+// VMap is a named map whose elements are Soy values already.
+type VMap map[string]data.Value
+
+// NilMarsh marshals itself to nil.
+type NilMarsh struct{}
+
+func (NilMarsh) MarshalValue() data.Value { return nil }
+
 // PMarsh marshals itself through a method with a pointer receiver.
 type PMarsh struct{ V int }
 
@@ -428,6 +436,32 @@ func build(r Recipe, c *C20Case) (interface{}, ref.Value) {
 			return mn, ref.M(e)
 		}
 		return m, ref.M(e)
+	case "map_values", "named_map_values", "slice_values":
+		// collections whose static element type is data.Value: their elements are values already, or nil
+		mv := map[string]data.Value{}
+		var sv []data.Value
+		e := map[string]ref.Value{}
+		var l []ref.Value
+		for i, k := range r.Keys {
+			if el(r, i).T == "nil" {
+				mv[k], e[k] = nil, ref.N()
+				sv, l = append(sv, nil), append(l, ref.N())
+				continue
+			}
+			_, x := build(el(r, i), c)
+			mv[k], e[k] = toData(x), x
+			sv, l = append(sv, toData(x)), append(l, x)
+		}
+		switch r.T {
+		case "named_map_values":
+			return VMap(mv), ref.M(e)
+		case "slice_values":
+			if sv == nil {
+				return []data.Value{}, ref.L()
+			}
+			return sv, ref.L(l...)
+		}
+		return mv, ref.M(e)
 	case "map_int":
 		m := map[string]int{}
 		e := map[string]ref.Value{}
@@ -615,6 +649,12 @@ func build(r Recipe, c *C20Case) (interface{}, ref.Value) {
 		return Marsh{int(r.I % 1000)}, ref.S("marsh:" + strconv.Itoa(int(r.I%1000)))
 	case "ptr_marsh":
 		return &Marsh{int(r.I % 1000)}, ref.S("marsh:" + strconv.Itoa(int(r.I%1000)))
+	case "nil_marsh":
+		// a marshaler that has nothing to say returns nil: that is the null value, not an invalid one
+		if r.B {
+			return &NilMarsh{}, ref.N()
+		}
+		return NilMarsh{}, ref.N()
 	case "ptr_pmarsh":
 		// a marshaler whose method has a pointer receiver: the pointer is the marshaler
 		return &PMarsh{int(r.I % 1000)}, ref.S("pmarsh:" + strconv.Itoa(int(r.I%1000)))
@@ -633,8 +673,8 @@ var (
 	c20Strs   = []string{"", "a", "0", "false", "null", "é", "<b>", "日本", "a b", "x\x00y", "\xff"}
 	c20Leaf   = []string{"local_a", "local_b", "bag", "ptr_bag", "nil_bag", "attrs", "nil_attrs", "nil", "bool", "mybool", "int", "int8", "int16", "int32", "int64", "myint", "uint", "uint8", "uint16", "uint32", "uint64", "uintptr", "array_int", "array_empty",
 		"float64", "float32", "myfloat", "string", "mystr", "time", "slice_nil", "map_nil", "nilptr_struct", "nilptr_int", "nilptr_ptr", "nilptr_marsh",
-		"s1", "s3", "marsh", "ptr_marsh", "ptr_pmarsh", "slice_int", "slice_str", "map_int", "level", "label", "slice_level", "slice_label", "slice_marsh", "map_level", "struct_level", "slice_time"}
-	c20Node = []string{"slice_any", "map_any", "map_named", "ptr", "s2", "value", "slice_ptr"}
+		"s1", "s3", "marsh", "ptr_marsh", "ptr_pmarsh", "nil_marsh", "slice_int", "slice_str", "map_int", "level", "label", "slice_level", "slice_label", "slice_marsh", "map_level", "struct_level", "slice_time"}
+	c20Node = []string{"slice_any", "map_any", "map_named", "ptr", "s2", "value", "slice_ptr", "map_values", "named_map_values", "slice_values"}
 )
 
 func genLeafFields(t *rapid.T, r *Recipe) {
@@ -696,7 +736,7 @@ func genRecipe(t *rapid.T, depth int) Recipe {
 			r.Elems = append(r.Elems, e)
 			r.Keys = append(r.Keys, rapid.SampledFrom([]string{"a", "b", "key", "", "é", "A", "x y"}).Draw(t, "k"))
 		}
-	case "slice_any", "map_any", "map_named":
+	case "slice_any", "map_any", "map_named", "map_values", "named_map_values", "slice_values":
 		n := rapid.IntRange(0, 4).Draw(t, "n")
 		for i := 0; i < n; i++ {
 			r.Elems = append(r.Elems, genRecipe(t, depth-1))
